@@ -34,6 +34,7 @@ type hCall struct {
 	ShareOpt bool // massive calls: use the history's one shared WithMassive option value
 	Reenter  bool // walks: the callback / loop body calls the library itself (at the first visit)
 	ReenterSame bool // ... on the tree being walked (with the same options) instead of on another tree
+	ReenterJSON bool // ... as a JSON output with default options (ReenterSame: of the tree being walked, whatever its branch strings)
 	AddLate  bool // walks (callback form): at its second visit the callback adds the node Name under the root of the tree being walked
 	Model *MNode // op: clone of the tree's model at call time (what the result must be a function of)
 	// results
@@ -223,7 +224,11 @@ func execCall(h *hCall, root *gtree.Node, jail string, idx int, yield bool, rw *
 			if h.ReenterSame && root != nil {
 				t = root
 			}
-			gtree.OutputFromRoot(io.Discard, t, opts...)
+			if h.ReenterJSON {
+				gtree.OutputFromRoot(io.Discard, t, gtree.WithEncodeJSON()) // an encoded output only reads the tree
+			} else {
+				gtree.OutputFromRoot(io.Discard, t, opts...)
+			}
 		}
 	}
 	if h.AddLate && root != nil {
@@ -606,6 +611,10 @@ func genHistory(c *Ctx, o histOpts) (calls []*hCall, nTasks int, nontrivial bool
 			if (op.Kind == "walk" || op.Kind == "walkiter") && !op.Massive && c.Chance(1, 4) {
 				h.Reenter = true
 				h.ReenterSame = op.Kind == "walk" && len(op.Branch) == 0 && c.Draw(2) == 0
+				if c.Chance(1, 3) {
+					h.ReenterJSON = true
+					h.ReenterSame = c.Draw(2) == 0
+				}
 			} else if op.Kind == "walk" && !op.Massive && len(t.nodes) >= 2 && len(t.nodes) < 9 && c.Chance(1, 5) {
 				h.AddLate = true
 				h.Name = fmt.Sprintf("late-%d", len(calls))
